@@ -13,19 +13,59 @@ namespace Claripy.AST
 
 inductive Bit where
   | c (b : Bool)
-  | of (t : Expr) (i : Nat)
+  | of (t : Expr) (i : Nat) (neg : Bool)      -- bit `i` of `t`, complemented if `neg`
 
 def Bit.beq : Bit → Bit → Bool
   | .c a, .c b => a == b
-  | .of t i, .of u j => t == u && i == j
+  | .of t i ng, .of u j ng' => t == u && i == j && ng == ng'
   | _, _ => false
 
 instance : BEq Bit := ⟨Bit.beq⟩
 
+def Bit.not : Bit → Bit
+  | .c b => .c (!b)
+  | .of t i ng => .of t i (!ng)
+
+/-- bitwise operations are followed only where one side is a literal bit -/
+def Bit.and? : Bit → Bit → Option Bit
+  | .c false, _ => some (.c false)
+  | .c true, x => some x
+  | _, .c false => some (.c false)
+  | x, .c true => some x
+  | _, _ => none
+
+def Bit.or? : Bit → Bit → Option Bit
+  | .c true, _ => some (.c true)
+  | .c false, x => some x
+  | _, .c true => some (.c true)
+  | x, .c false => some x
+  | _, _ => none
+
+def Bit.xor? : Bit → Bit → Option Bit
+  | .c false, x => some x
+  | .c true, x => some x.not
+  | x, .c false => some x
+  | x, .c true => some x.not
+  | _, _ => none
+
+def zipBits (f : Bit → Bit → Option Bit) : List Bit → List Bit → Option (List Bit)
+  | [], [] => some []
+  | a :: as, b :: bs =>
+    match f a b, zipBits f as bs with
+    | some r, some rs => some (r :: rs)
+    | _, _ => none
+  | _, _ => none
+
+/-- n-ary bitwise node: fold over the operands' bits -/
+def foldBits (f : Bit → Bit → Option Bit) : List (Option (List Bit)) → Option (List Bit) → Option (List Bit)
+  | [], acc => acc
+  | some b :: rest, some acc => foldBits f rest (zipBits f acc b)
+  | _, _ => none
+
 /-- all bits of a term the normal form does not look into (`none` if it reports no positive width) -/
 def opaqueBits (e : Expr) : Option (List Bit) :=
   match e.width with
-  | some w => if 0 < w then some ((List.range w).map fun i => Bit.of e i) else none
+  | some w => if 0 < w then some ((List.range w).map fun i => Bit.of e i false) else none
   | none => none
 
 /-- `Concat(a, b, …)`: the first operand is the most significant; bits are listed least significant first -/
@@ -34,20 +74,45 @@ def concatBits : List (Option (List Bit)) → Option (List Bit)
   | some b :: rest => (concatBits rest).map (· ++ b)
   | none :: _ => none
 
+/-- the shift amount of a shift node, if it is a literal -/
+def shiftAmt : Expr → Option (Nat × Nat)
+  | .app _ [_, .bvv v w] => some (v % 2 ^ w, w)
+  | _ => none
+
+/-- bits of a node from the bits of its operands (`none`: the node is not looked into) -/
+def bitsOf (op : Op) (self : Expr) (obs : List (Option (List Bit))) : Option (List Bit) :=
+  match op, obs with
+  | .concat, _ :: _ => concatBits obs
+  | .extract hi lo, [some b] => if lo ≤ hi ∧ hi < b.length then some ((b.drop lo).take (hi - lo + 1)) else none
+  | .zeroExt n, [some b] => some (b ++ List.replicate n (Bit.c false))
+  | .signExt n, [some b] =>
+    match b.getLast? with
+    | some m => some (b ++ List.replicate n m)
+    | none => none
+  | .bnot, [some b] => some (b.map Bit.not)
+  | .band, some b0 :: r :: rest => foldBits Bit.and? (r :: rest) (some b0)
+  | .bor, some b0 :: r :: rest => foldBits Bit.or? (r :: rest) (some b0)
+  | .bxor, some b0 :: r :: rest => foldBits Bit.xor? (r :: rest) (some b0)
+  | .lshr, [some a, some _] =>
+    match shiftAmt self with
+    | some (k, ws) => if ws = a.length then some (a.drop k ++ List.replicate (min k a.length) (Bit.c false)) else none
+    | none => none
+  | .ashr, [some a, some _] =>
+    match shiftAmt self, a.getLast? with
+    | some (k, ws), some m => if ws = a.length then some (a.drop k ++ List.replicate (min k a.length) m) else none
+    | _, _ => none
+  | .shl, [some a, some _] =>
+    match shiftAmt self with
+    | some (k, ws) =>
+      if ws = a.length then some (List.replicate (min k a.length) (Bit.c false) ++ a.take (a.length - k)) else none
+    | none => none
+  | _, _ => none
+
 /-- normal form of a node from the normal forms of its operands: (bits, terms treated as opaque) -/
 def normApp (op : Op) (self : Expr) (subs : List (Option (List Bit) × List Expr)) : Option (List Bit) × List Expr :=
-  match op, subs with
-  | .concat, _ :: _ =>
-    match concatBits (subs.map (·.1)) with
-    | some r => (some r, subs.flatMap (·.2))
-    | none => (opaqueBits self, [self])
-  | .extract hi lo, [(some b, ts)] => (if lo ≤ hi ∧ hi < b.length then some ((b.drop lo).take (hi - lo + 1)) else none, ts)
-  | .zeroExt n, [(some b, ts)] => (some (b ++ List.replicate n (Bit.c false)), ts)
-  | .signExt n, [(some b, ts)] =>
-    (match b.getLast? with
-     | some m => some (b ++ List.replicate n m)
-     | none => none, ts)
-  | _, _ => (opaqueBits self, [self])
+  match bitsOf op self (subs.map (·.1)) with
+  | some r => (some r, subs.flatMap (·.2))
+  | none => (opaqueBits self, [self])
 
 mutual
 def norm : Expr → Option (List Bit) × List Expr
